@@ -1,7 +1,7 @@
 (** Props/C09.v — C09: every one-hot event encoding is a bijection onto its
     class range.  Only statements, [exact], and [Print Assumptions]. *)
 From Coq Require Import ZArith List Bool.
-From NS Require Import Gen.G09 Model.OneHot Proofs.OneHot Model.ChordOneHot Proofs.ChordOneHot.
+From NS Require Import Gen.G09 Model.OneHot Proofs.OneHot Model.ChordOneHot Proofs.ChordOneHot Gen.Tr Proofs.TrEquiv09.
 Import ListNotations.
 Local Open Scope Z_scope.
 
@@ -154,6 +154,38 @@ Theorem C09_chord_no_chord_is_class_zero : mm_encode None = ChOk 0 /\ triad_enco
   mm_decode 0 = ChOk None /\ triad_decode 0 = ChOk None.
 Proof. exact no_chord_is_class_zero. Qed.
 Print Assumptions C09_chord_no_chord_is_class_zero.
+
+(** Source-level tie (second kind): the Gallina text re-translated from the SOURCE of the Python functions on
+    every run (Gen/Tr.v, harness/vt/pytr.py) equals the hand-written model, for all arguments. *)
+Theorem C09_source_velocity_bin_size : forall nb, 0 < nb -> tr_velocity_bin_size nb = Some (bin_size nb).
+Proof. exact tr_bin_size_eq. Qed.
+Print Assumptions C09_source_velocity_bin_size.
+
+Theorem C09_source_velocity_to_bin : forall v nb, 0 < nb -> tr_velocity_to_bin v nb = Some (vel_to_bin v nb).
+Proof. exact tr_velocity_to_bin_eq. Qed.
+Print Assumptions C09_source_velocity_to_bin.
+
+Theorem C09_source_velocity_bin_to_velocity : forall b nb, 0 < nb ->
+  tr_velocity_bin_to_velocity b nb = Some (bin_to_vel b nb).
+Proof. exact tr_velocity_bin_to_velocity_eq. Qed.
+Print Assumptions C09_source_velocity_bin_to_velocity.
+
+Theorem C09_source_melody_init : forall mn mx,
+  tr_melody_init mn mx = if mel_cfg_ok mn mx then Some tt else None.
+Proof. exact tr_melody_init_eq. Qed.
+Print Assumptions C09_source_melody_init.
+
+Theorem C09_source_melody_num_classes : forall mn mx, tr_melody_num_classes mx mn = Some (mel_num_classes mn mx).
+Proof. exact tr_melody_num_classes_eq. Qed.
+Print Assumptions C09_source_melody_num_classes.
+
+Theorem C09_source_melody_encode_event : forall mn mx e, tr_melody_encode_event mx mn e = mel_encode mn mx e.
+Proof. exact tr_melody_encode_eq. Qed.
+Print Assumptions C09_source_melody_encode_event.
+
+Theorem C09_source_melody_decode_event : forall mn i, tr_melody_decode_event mn i = Some (mel_decode mn i).
+Proof. exact tr_melody_decode_eq. Qed.
+Print Assumptions C09_source_melody_decode_event.
 
 (** Non-vacuity: the hypotheses are met by the shipped defaults. *)
 Example C09_nonvacuous :
